@@ -35,7 +35,7 @@ let sdec s = st (dec s)
 let lst s = if s = "-" then [] else List.map dec (String.split_on_char '/' s)
 
 (* ---- spec ---- *)
-type tcfg = { acts : string; ign : char; exact : bool; pos : string list; skip : string list }
+type tcfg = { acts : string; ign : char; exact : bool; pos : string list; skip : string list; threads : string list }
 
 (* values of an argument list according to the container kind letter *)
 let values_of rk vals =
@@ -123,7 +123,8 @@ let parse_case (line : string) =
       match List.hd f with
       | "C" ->
         cfg := Some { acts = List.nth f 1; ign = (List.nth f 2).[0]; exact = List.nth f 3 = "e";
-                      pos = lst (List.nth f 4); skip = lst (List.nth f 5) }
+                      pos = lst (List.nth f 4); skip = lst (List.nth f 5);
+                      threads = (match List.nth_opt f 7 with Some t -> lst t | None -> []) }
       | "B" ->
         let id = n_of_string (List.nth f 1) in
         benches := { b_id = id; b_meta = meta_of f; b_runner = runner_of id (List.nth f 8) (List.nth f 9) } :: !benches
@@ -166,7 +167,8 @@ let parse_case (line : string) =
 let mk_cfg (c : tcfg) (pos : string list) (exact : bool) : cfg =
   { c_run_ignored = (match c.ign with 'o' -> RIOnly | 'y' -> RIYes | _ -> RINo);
     c_opts = { o_ignore = None; o_sample_count = None };
-    c_filter = is_match exact (List.map st pos) (List.map st c.skip) }
+    c_filter = is_match exact (List.map st pos) (List.map st c.skip);
+    c_threads = List.map n_of_string c.threads }
 
 let ident (t : tree list) = t
 
@@ -191,7 +193,7 @@ let canon_tree ((acts, p) : trace) (pair_calls : bool) (made : string) : string 
     | AStartLeaf (_, path, _) :: tl ->
       if pair_calls then begin
         let call = match tl with
-          | ANewBencher _ :: AInvoke (id, _, arg) :: _ ->
+          | ANewBencher _ :: (AInvoke (id, _, arg) | AInvokeMore (id, _, arg, _)) :: _ ->
             "C" ^ string_of_n id ^ (match arg with None -> "" | Some (_, v) -> "=" ^ render_val v)
           | _ -> "NOCALL" in
         items := ("X:" ^ enc (ts path) ^ "=" ^ call) :: !items
@@ -256,7 +258,7 @@ let model_run (line : string) : string =
          | Some t -> String.sub t 2 (String.length t - 2)
          | None -> "no-options-item")
       | 'K' -> ""   (* marker: the case has a module / generic function name clash *)
-      | 'm' -> canon_tree (run cfg0 Test) true made
+      | 'm' | 'p' -> canon_tree (run cfg0 Test) true made
       | 'n' -> canon_terse (run cfg0 ListTerse)
       | 'a' | 'b' | 'c' | 'd' | 'f' | 'g' | 'h' | 'j' | 'k' ->
         (* (list, test, bench, terse accepted) as the harness passes them for this letter *)
@@ -504,12 +506,20 @@ let c17_sb (line : string) : string =
   let cfg0 = mk_cfg c c.pos c.exact in
   let fail = ref [] in
   let bad s = if not (List.mem s !fail) then fail := s :: !fail in
-  let expected = List.map (fun ((id, path), arg) ->
-      enc (ts path) ^ "=C" ^ string_of_n id ^ (match arg with None -> "" | Some (_, v) -> "=" ^ render_val v))
+  (* with two or more thread counts every case is a parent labelled like the case with one leaf "t=N" per count *)
+  let branches = if List.length c.threads > 1 then List.map (fun t -> "::t=" ^ t) c.threads else [""] in
+  let strip_thread p =
+    if List.length c.threads > 1 then
+      (match List.find_opt (fun suf -> strip_suffix suf p <> None) (List.filter (fun b -> b <> "") branches) with
+       | Some suf -> (match strip_suffix suf p with Some q -> q | None -> p)
+       | None -> p)
+    else p in
+  let expected = List.concat_map (fun ((id, path), arg) ->
+      List.map (fun b -> enc (ts path ^ b) ^ "=C" ^ string_of_n id ^ (match arg with None -> "" | Some (_, v) -> "=" ^ render_val v)) branches)
       (flat_exec cfg0 benches groups) in
   List.iter (fun (act, body) ->
     match act with
-    | 'R' | 'Q' ->
+    | 'R' | 'Q' | 'p' ->
       let (items, made, rest) = read_tree body in
       if rest <> [] then bad ("run-status:" ^ String.concat "," rest);
       if has_mismatch items then bad "run-leaves-and-calls-differ";
@@ -519,7 +529,7 @@ let c17_sb (line : string) : string =
           match String.split_on_char '=' it with
           | [p; _; v] ->
             (match parse_val v with
-             | Some value -> if not (c17_label_sb (sdec p) value) then bad ("row-label-is-not-the-received-value:" ^ it)
+             | Some value -> if not (c17_label_sb (st (strip_thread (dec p))) value) then bad ("row-label-is-not-the-received-value:" ^ it)
              | None -> bad ("unreadable-value:" ^ it))
           | _ -> ()) got;
       if not (c12_flat_sb (List.map st expected) (List.map st got)) then begin
